@@ -128,6 +128,7 @@ def scenario(sim: Sim, timeline_only: bool = False) -> None:
     sim.config.update(generator="battery" if battery else ("grid" if grid else "pv"), terms=terms, bare=bare, rounds=rounds, close=close, lag={str(k): x for k, x in lag.items()})
     sim.loop.max_iters_no_advance = 4000
     sim.loop.max_steps = 60_000
+    fc.draw_stream_offsets(sim, sorted(c.component_id for c in comps))
     sim.set_cost_mode(ch.weighted("cost_mode", [3, 1]))
 
     faulty_keys: set[tuple[str, Any]] = set()
@@ -205,7 +206,7 @@ def scenario(sim: Sim, timeline_only: bool = False) -> None:
             delivered[(cid, k)] = None if kind == "error" else val     # a sample lost to a receive error is missing
             first_index.setdefault(cid, k)
             for tx in senders[cid]:
-                await tx.send(Sample(fc.grid_ts(sim, k), None if val is None else Quantity(val)))
+                await tx.send(Sample(fc.grid_ts(sim, k, cid), None if val is None else Quantity(val)))
 
         for k in range(rounds + TAIL + 3):
             cids = sorted(senders)
